@@ -228,7 +228,7 @@ theorem sim_closeEpOp (st : State) (j : J) (op : LOp) (ei : Nat) (wd : Bool) (or
           have : e' = e := huniq e' he' (hi'.trans hei)
           subst this
           exact ⟨id, Or.inr (by simp [selEp, hei, hkd])⟩
-        obtain ⟨h1, sj1⟩ := closeEp_sim (selEp ei wd) op st _ e hmpre hcbpre hcur
+        obtain ⟨h1, sj1⟩ := closeEp_sim (selEp ei wd) op hrace st _ e hmpre hcbpre hcur
         have hsame := closeEp_same st e
         have hclosed : ∀ e' ∈ (closeEp st e).1.eps, e'.idx = ei → e'.dialer = wd → e'.closed = true :=
           fun e' he' hi' _ => c1 e' he' (hi'.trans hei.symm)
